@@ -407,3 +407,24 @@ def close(a, b, rel=1e-9, abs_=1e-9):
             return a == b
         return abs(a - b) <= abs_ + rel * max(abs(a), abs(b))
     return a == b
+
+
+def coq_eval_cases(ctx, name, prelude, exprs, chunk=200, timeout=900):
+    """evaluate a list of Coq expressions (all of one type) with vm_compute, in chunks run in
+    parallel; returns the list of parsed results in order (raises CoqEvalError)"""
+    from harness.coqio import parse_evals
+    jobs = []
+    for c in range(0, len(exprs), chunk):
+        body = prelude + "Eval vm_compute in [" + ";\n ".join(exprs[c:c + chunk]) + "].\n"
+        jobs.append((f'{name}_{c // chunk}', body))
+    outs = coq_eval_many(ctx, jobs, timeout=timeout)
+    res = []
+    for c in range(0, len(exprs), chunk):
+        got = parse_evals(outs[f'{name}_{c // chunk}'])
+        if not got:
+            raise CoqEvalError(f"no Eval output in {name}_{c // chunk}")
+        part = got[0]
+        if len(part) != len(exprs[c:c + chunk]):
+            raise CoqEvalError(f"{name}_{c // chunk}: {len(part)} results for {len(exprs[c:c + chunk])} cases")
+        res.extend(part)
+    return res
